@@ -1,5 +1,7 @@
 import GoLucene.Proofs.Der3
 import GoLucene.Proofs.LexTypes
+import GoLucene.Proofs.DerTerm
+import GoLucene.Proofs.Fuel
 /-
   C06 — every accepted query's tree is a derivation of the text that was typed.
 
@@ -83,6 +85,23 @@ theorem no_derivation_with_error (toks : List Tok) (ex : Ex) (h : Der toks ex) :
   | fuzzy1 o ho _ _ ih1 ih2 => intro x hx; simp at hx; rcases hx with hx | rfl | hx <;> simp_all
   | boost0 o ho _ ih => intro x hx; simp at hx; rcases hx with hx | rfl <;> simp_all
   | boost1 o ho _ _ ih1 ih2 => intro x hx; simp at hx; rcases hx with hx | rfl | hx <;> simp_all
+
+/-- FULL-STRENGTH statement: the grammar `DerT` allows juxtaposition only where a term token ends the left part and a
+    term token starts the right part (`( a ) b` and `a ~ b` are NOT juxtapositions).  Every accepted token list is a
+    `DerT` derivation. -/
+theorem accepted_is_term_derivation (env : Env) (df : Bytes) (toks : List Tok) (e : Expr)
+    (hne : ∀ t ∈ toks, t.typ ≠ .eof) (h : parseTokens env df toks = .ok e) :
+    ∃ ex : Ex, DerT toks ex ∧ finalize env df ex = .ok e := by
+  unfold parseTokens at h
+  split at h
+  · cases h
+  · rename_i ex hp
+    exact ⟨ex, parse_soundT (isNumOf env df) toks ex hne hp, h⟩
+
+/-- … for every input string -/
+theorem accepted_query_is_term_derivation (env : Env) (s df : Bytes) (e : Expr) (h : parseQuery env s df = .ok e) :
+    ∃ ex : Ex, DerT (tokensOf env s) ex ∧ finalize env df ex = .ok e :=
+  accepted_is_term_derivation env df (tokensOf env s) e (tokensOf_no_eof env s) h
 
 /-- non-vacuity: `a:b` is accepted by the grammar -/
 example : Der [⟨.literal, [97]⟩, ⟨.colon, [58]⟩, ⟨.literal, [98]⟩] (.eq (.leaf ⟨.literal, [97]⟩) (.leaf ⟨.literal, [98]⟩)) :=
